@@ -147,7 +147,31 @@ CHECKS = {
         "switches, separators and decimals; reader exports with comments, blank and skipped lines.",
         note="batch == float is C02's business; inputs one unit in the last place away are counted ambiguous; long tables are replayed on 96 sampled rows when lock-previous is off",
     ),
+    "C14": dict(
+        level="exploration",
+        technique="runtime monitors on FllExporter.to_string(engine) and FllImporter.from_string: re-import/re-export of every observed export (text equality + structural digest within half a unit of the last decimal), normalisation fixed point of every accepted text, bit-identical outputs on grid-representable engines",
+        text="Every observed engine export is imported and exported again (texts must be equal, structures must agree), every observed "
+        "accepted import must normalise to a fixed point in one cycle, and engines whose parameters lie on the decimals grid must compute "
+        "bit-identical outputs after the round trip; generated engines cover every term, norm, defuzzifier and activation method with "
+        "parameters at decimals 1..9, on and off the grid, plus reformatted/mutated texts and the shipped examples.",
+        note="recorded finding: Rule.enabled has no FLL representation (printed as KNOWN-FINDING; identical outputs are not required when a rule is disabled); heights/weights within atol of 1 are written as 1",
+    ),
+    "C15": dict(
+        level="exploration",
+        technique="runtime monitor on PythonExporter.to_string executing the produced code in a fresh namespace (eval / exec + instantiation) and comparing representation, FLL export and structural digest; differential output check",
+        text="Every observed Python export (engines and each kind of component; plain and encapsulated; aliases 'fl', '', '*', custom; "
+        "unformatted and black-formatted) is executed after the library's import statement and the reconstructed object must have the same "
+        "Python representation, FLL export and structure, and compute bit-identical outputs; parameters are arbitrary doubles, +-inf, NaN, "
+        "descriptions contain quotes and backslashes.",
+        note="recorded finding: Rule.enabled is not part of Rule.create('...'); rule weights are compared at the configured decimals because rules travel as text",
+    ),
+    "C16": dict(
+        level="exploration",
+        technique="runtime monitors classifying every exit of Rule.parse/load, Antecedent.load, Consequent.load, RuleBlock.load_rules and FllImporter.from_string (exception class, loaded flag, exportability/evaluability of acceptances); token-level mutation workload and single-error injector",
+        text="Every observed rejection must be a SyntaxError, ValueError or KeyError and leave the rule unloaded; every acceptance must be "
+        "exportable and the rule evaluable; thousands of token-level mutants of valid rules and FLL documents are fed, and rules with "
+        "exactly one injected error of each listed class must never be accepted.",
+        note="recorded finding: parameterless Discrete/Linear terms are accepted by the importer and raise ValueError at evaluation; ungrammatical acceptances outside the listed classes are counted, not judged",
+    ),
 }
-NOT_APPLICABLE = [
-    {"property_id": p, "reason": "check not built yet in this session (work in progress; see DESIGN.md §4)"} for p in ALL if p not in CHECKS
-]
+NOT_APPLICABLE = [{"property_id": p, "reason": "check not built yet (see DESIGN.md §4)"} for p in ALL if p not in CHECKS]
